@@ -9,6 +9,7 @@ import numpy as np
 import pandas as pd
 
 from harness.core import Machinery
+from checks import binding
 
 LEVEL = "model_checking"
 
@@ -118,7 +119,8 @@ def replay_header(ctx, csv, c, tmp, k):
 
 
 def spec_to_code(ctx, csv):
-    res = ctx.tlc("CsvStoreDump", "MC_CsvStore.cfg", timeout=1800)
+    res = ctx.tlc("CsvStoreDump", "MC_CsvStore.cfg", timeout=1800, coverage=True)
+    ctx.require_actions(res, ["Write", "Read"], "CsvStore")
     if res.violated:
         raise Machinery("CsvStore.tla violates its contract: %s" % res.violated)
     res_old = ctx.tlc("CsvStore", "MC_CsvStore_oldrule.cfg", timeout=600, expect_clean=False)
@@ -141,7 +143,7 @@ def spec_to_code(ctx, csv):
         if n < 500:
             raise Machinery("CsvStore generator: %d scenarios" % n)
         ctx.part("store_spec_to_code", scenarios=n, states=res.distinct, old_rule_counterexample=True)
-        resh = ctx.tlc("CsvHeaderDump", "MC_CsvHeader.cfg", workers=8, timeout=900)
+        resh = ctx.tlc("CsvHeaderDump", "MC_CsvHeader.cfg", timeout=900)
         if resh.violated:
             raise Machinery("CsvHeader.tla violates its contract: %s" % resh.violated)
         tmp = tempfile.mkdtemp(dir=tmproot)
@@ -174,12 +176,22 @@ def code_to_spec(ctx, csv, ncases):
             ncol = int(rng.integers(1, 6))
             nrow = int(rng.integers(1, 9))
             cols = [str(c) for c in rng.choice(WORDS, size=ncol, replace=False)]
-            fmt, digits = [("%0.5f", 5), ("%0.2f", 2), ("%0.8e", None), ("%0.3f", 3), ("%0.8f", 8)][int(rng.integers(0, 5))]
-            kinds, data, cells = [], {}, []
+            fmt, digits = [("%0.5f", 5), ("%0.2f", 2), ("%0.8e", None), ("%0.3f", 3), ("%0.8f", 8), ("%0.3e", "e3"), ("%0.6g", "g6"), ("%0.5e", "e5")][int(rng.integers(0, 8))]
+            kinds, data, cells, expo = [], {}, [], {}
             for c in cols:
                 kd = str(rng.choice(["f", "i", "t"]))
                 kinds.append(kd)
-                if kd == "f":
+                if kd == "f" and isinstance(digits, str):
+                    # exponent / general formats: mantissa m (all significant digits the format keeps) times 10^e, any magnitude;
+                    # cells are recorded in units of the last kept digit
+                    nd = int(digits[1]) + (1 if digits[0] == "e" else 0)
+                    m = rng.integers(10 ** (nd - 1), 10 ** nd, size=nrow) * rng.choice([-1, 1], size=nrow)
+                    ex = rng.choice([-200, -30, -12, -5, -3, -nd, 0, 2, 9, 40, 250], size=nrow)
+                    v = np.array([float("%de%d" % (mm, ee)) for mm, ee in zip(m, ex)])
+                    expo[c] = [int(ee) for ee in ex]
+                    cells.append([int(mm) for mm in m])
+                    data[c] = v
+                elif kd == "f":
                     if digits is None:
                         v = rng.integers(-999, 1000, size=nrow) / 8.0          # exact in %0.8e
                         cells.append([int(round(x * 8)) for x in v])
@@ -224,7 +236,11 @@ def code_to_spec(ctx, csv, ncases):
                 if cols_out == cols and nrow_out == nrow:
                     for c, kd in zip(cols, kinds):
                         col = df2[c]
-                        if kd == "f":
+                        if kd == "f" and isinstance(digits, str):
+                            units = [float("1e%d" % ee) for ee in expo[c]]
+                            cells_out.append([int(max(-10 ** 8, min(10 ** 8, round(float(x) / u)))) if np.isfinite(float(x)) else -99999999
+                                              for x, u in zip(col, units)])
+                        elif kd == "f":
                             sc = 8 if digits is None else 10 ** digits
                             cells_out.append([int(round(float(x) * sc)) for x in col])
                         elif kd == "i":
@@ -245,9 +261,10 @@ def code_to_spec(ctx, csv, ncases):
     with open(path, "w") as f:
         for r in recs:
             f.write(json.dumps(r) + "\n")
-    res = ctx.tlc("CsvTrace", "MC_CsvTrace.cfg", workers=1, timeout=1800, env={"TRACE_FILE": str(path)})
+    res = ctx.tlc("CsvTrace", "MC_CsvTrace.cfg", timeout=1800, env={"TRACE_FILE": str(path)})
     if not res.tuples("VALIDATED"):
         raise Machinery("CsvTrace did not complete:\n" + res.out[-2500:])
+    ctx.binding_demo("CsvTrace", "MC_CsvTrace.cfg", path, binding.csvtrace, timeout=1800)
     for line in res.tuples("REJECT"):
         parts = line.strip("<>").split(",")
         r = recs[int(parts[1]) - 1]
@@ -266,7 +283,7 @@ def run(ctx):
                 "archive, up to 3 operations) executed in a temporary directory and compared with the model (violations only inside the contract: "
                 "a write immediately read back under a fresh stem); every comment key/value of CsvHeader.tla (keys of 1/12/25 characters, values from "
                 "chunks incl. colons, hashes, commas, quotes, dashes) written and read back; C->S: random frames (1-5 columns with spaces/dashes in "
-                "names, float/int/text cells with commas, quotes, colons, hashes, four float formats, all storage modes incl. sub-folders) validated by "
+                "names, float/int/text cells with commas, quotes, colons, hashes, fixed, exponent and general float formats over magnitudes 1e-200..1e250, all storage modes incl. sub-folders) validated by "
                 "CsvTrace.tla. non-trivial = scenario inside the contract / value in the domain / frame with rows.")
     spec_to_code(ctx, csv)
     code_to_spec(ctx, csv, 200 if ctx.tier == "quick" else 2500)
